@@ -384,4 +384,23 @@ theorem escapePropBytesF_eq : ∀ (fuel : Nat) (s : List Nat), (∀ b ∈ s, b <
       · rw [List.flatMap_append, ih _ (fun x hx => hs x (List.mem_cons_of_mem _ hx)),
           ascii_flatMap _ (backslashX_ascii b (hs b List.mem_cons_self))]
 
+/-! ### How long the escaped text can get -/
+
+theorem escByte_length_le (b : Nat) : (escByte b).length ≤ 6 := by
+  unfold escByte
+  repeat' split
+  all_goals simp [QUOT, AMP, LT, GT, APOS, backslashX]
+
+theorem flatMap_length_le {α β : Type} (f : α → List β) (k : Nat) (h : ∀ a, (f a).length ≤ k) :
+    ∀ s : List α, (s.flatMap f).length ≤ k * s.length
+  | [] => by simp
+  | a :: s => by
+    have := flatMap_length_le f k h s
+    have := h a
+    simp only [List.flatMap_cons, List.length_append, List.length_cons, Nat.mul_succ]
+    omega
+
+theorem escape_length_le (s : List Nat) : (escape s).length ≤ 6 * s.length :=
+  flatMap_length_le escByte 6 escByte_length_le s
+
 end Cgreen.Xml
